@@ -6,6 +6,7 @@ import (
 	"io"
 	"regexp"
 	"sort"
+	"strconv"
 	"strings"
 	"testing/iotest"
 	"time"
@@ -162,7 +163,27 @@ func stlMetaDenote(g stlGSI, ignoreTCP bool, withLang bool) string {
 		lang = g.Lang
 	}
 	return fmt.Sprintf("fps=%d dsc=%q lang=%q title=%q oet=%q tpt=%q tet=%q tn=%q tcd=%q slr=%q co=%q pub=%q en=%q ecd=%q cd=%q rd=%q rn=%d mnc=%d mnr=%d tcp(x10ns)=%d\n",
-		g.FPS, g.DSC, lang, g.OPT, g.OET, g.TPT, g.TET, g.TN, g.TCD, g.SLR, g.CO, g.PUB, g.EN, g.ECD, g.CD, g.RD, g.RN, g.MNC, g.MNR, tcp/10)
+		g.FPS, g.DSC, lang, g.OPT, g.OET, g.TPT, g.TET, g.TN, g.TCD, g.SLR, g.CO, g.PUB, g.EN, g.ECD, stlDateDenote(g.CD, 0), stlDateDenote(g.RD, 0), g.RN, g.MNC, g.MNR, tcp/10)
+}
+
+// stlDateDenote spells a GSI date (yymmdd) with its century: the format dates from 1991, so 91..99 are the nineties
+// and 00..68 this century (69..90 mean nothing sensible and are left open). year is what a reader made of it (0 on
+// the model's side)
+func stlDateDenote(d string, year int) string {
+	if len(d) != 6 {
+		return d
+	}
+	yy, err := strconv.Atoi(d[:2])
+	if err != nil || (yy > 68 && yy < 91) {
+		return "??" + d
+	}
+	if year == 0 {
+		year = 2000 + yy
+		if yy >= 91 {
+			year = 1900 + yy
+		}
+	}
+	return fmt.Sprintf("%04d%s", year, d[2:])
 }
 
 func stlProjectMeta(md *astisub.Metadata) string {
@@ -173,10 +194,10 @@ func stlProjectMeta(md *astisub.Metadata) string {
 		TN: md.STLTranslatorName, TCD: md.STLTranslatorContactDetails, SLR: md.STLSubtitleListReferenceCode, CO: md.STLCountryOfOrigin, PUB: md.STLPublisher, EN: md.STLEditorName,
 		ECD: md.STLEditorContactDetails, RN: md.STLRevisionNumber, Lang: md.Language}
 	if md.STLCreationDate != nil && !md.STLCreationDate.IsZero() {
-		g.CD = md.STLCreationDate.Format("060102")
+		g.CD = stlDateDenote(md.STLCreationDate.Format("060102"), md.STLCreationDate.Year())
 	}
 	if md.STLRevisionDate != nil && !md.STLRevisionDate.IsZero() {
-		g.RD = md.STLRevisionDate.Format("060102")
+		g.RD = stlDateDenote(md.STLRevisionDate.Format("060102"), md.STLRevisionDate.Year())
 	}
 	if md.STLMaximumNumberOfDisplayableCharactersInAnyTextRow != nil {
 		g.MNC = *md.STLMaximumNumberOfDisplayableCharactersInAnyTextRow
